@@ -3,14 +3,24 @@ use crate::engine::PropertyDef;
 
 pub mod c04;
 pub mod c09;
+pub mod c18;
+pub mod c19;
 pub mod c27;
 pub mod c29;
+pub mod util;
 
 pub fn all() -> Vec<PropertyDef> {
-    vec![c04::def(), c09::def(), c27::def(), c29::def()]
+    vec![c04::def(), c09::def(), c18::def(), c19::def(), c27::def(), c29::def()]
 }
 
-pub fn worker_main(_args: &[String]) {
-    eprintln!("no worker yet");
-    std::process::exit(2);
+/// Drivers that run inside an isolated worker process (`vp worker`).
+pub fn worker_dispatch(kind: &str, payload: &[u8]) -> Vec<u8> {
+    match kind {
+        "c18" => c18::worker(payload),
+        _ => b"unknown worker kind".to_vec(),
+    }
+}
+
+pub fn worker_main(args: &[String]) {
+    crate::engine::isolate::worker_main(args, worker_dispatch);
 }
